@@ -104,6 +104,13 @@ def gen_site(rng, size=None, redirects=True, inline=True, offsite=True, deep=Fal
             for im in imgs:
                 if rng.random() < 0.5:
                     links.append((im, True))
+                    if rng.random() < 0.4:
+                        # the thumbnail idiom <a href=X><img src=X></a>: one URL, both an ordinary link and a
+                        # page requisite of this page (the anchor comes first in the document)
+                        links.append((im, False))
+            if len(paths) > 1 and rng.random() < 0.1:
+                t = rng.choice(paths[1:])
+                links += [(t, False), (t, True)]               # a document that is also embedded
             if offsite and rng.random() < 0.2:
                 links.append(('http://%s/' % OTHER, False))
             if rng.random() < 0.15:
@@ -300,6 +307,86 @@ class RefCrawl:
                     seen[c] = (level + 1, ci)
                     todo.append((c, level + 1, ci))
         return fetched, seen
+
+
+    # ---- the property's reading: a URL is in scope when SOME chain of in-scope links leads to it
+    def _cap(self, level):
+        L = self.o['level']
+        return min(level, L + 3) if L else min(level, 1)       # beyond that every record is judged alike
+
+    def reach_any(self, start_url):
+        """-> (set of URLs that must be requested, {url: set of (level, inline_level) records it is reachable with}).
+        Unlike `reach` (first sighting wins, what an insert-or-ignore table does) every record a URL can be
+        discovered with is followed: depth = shortest distance, requisite if embedded anywhere."""
+        todo = [(start_url, 0, None)]
+        states = {(start_url, 0, None)}
+        fetched = set()
+        yields = {}            # state -> children [(url, inline)]
+        while todo:
+            st = todo.pop()
+            url, level, inl = st
+            reqs, _status, kids = self.visit(url, level, inl, 0)
+            fetched.update(reqs)
+            yields[st] = kids
+            for c, inline in kids:
+                ci = ((inl or 0) + 1) if inline else None
+                nst = (c, self._cap(level + 1), ci)
+                if nst not in states:
+                    states.add(nst)
+                    todo.append(nst)
+        records = {}
+        for u, l, i in states:
+            records.setdefault(u, set()).add((l, i))
+        self._yields = yields
+        return fetched, records
+
+    def explain_missing(self, missing, rows, start_url):
+        """Why was an in-scope URL never requested?  -> {url: 'depth-race' | 'requisite-shadowed' | 'plain'}.
+        'first record wins': the table keeps the record (depth, requisite or not) of the first sighting and never
+        improves it; a URL whose STORED record is out of scope although a better one exists is skipped, and the links
+        of a page stored too deep / as an ordinary link are judged with that record."""
+        _fetched, records = self.reach_any(start_url)
+        stored = {r['url']: (r['level'], r['inline_level']) for r in rows}
+        out = {}
+
+        def dimension(url, rec, better):
+            # better: records under which the URL (or its link) is in scope
+            same_kind = [b for b in better if (b[1] is None) == (rec[1] is None)]
+            return 'depth-race' if same_kind else 'requisite-shadowed'
+
+        changed = True
+        todo = set(missing)
+        while changed:
+            changed = False
+            for u in sorted(todo):
+                if u in out:
+                    continue
+                why = None
+                if u in stored:
+                    rec = stored[u]
+                    good = [b for b in records.get(u, ()) if self.accept(u, b[0], b[1], 0)]
+                    if not self.accept(u, rec[0], rec[1], 0) and good:
+                        why = dimension(u, rec, good)
+                else:
+                    # never inserted: a page linking to it was handled under a worse record than its best one
+                    for (p_url, pl, pi), kids in self._yields.items():
+                        if u not in [k for k, _ in kids]:
+                            continue
+                        if p_url in out and out[p_url] != 'plain':
+                            why = out[p_url]
+                            break
+                        if p_url in stored and stored[p_url] != (pl, pi):
+                            rec = stored[p_url]
+                            _r, _s, kids2 = self.visit(p_url, rec[0], rec[1], 0)
+                            if u not in [k for k, _ in kids2]:
+                                why = dimension(p_url, rec, [(pl, pi)])
+                                break
+                if why:
+                    out[u] = why
+                    changed = True
+        for u in missing:
+            out.setdefault(u, 'plain')
+        return out
 
 
 # ------------------------------------------------------------------ trace -> model events
